@@ -14,7 +14,7 @@ RULE = ("every degree 0..40 (and 499..520 across the len>500 scheme switch) x ra
         "all-nonzero for ratio form) x rational points x all schemes/reverse flags/Laurent regimes; divmod/multiply/add/derivative/taylorat by "
         "coefficient identities. distinct_nontrivial = distinct (function, scheme, reverse, degree, zero-pattern class) tuples with degree >= 1")
 ASSUME = ["Python Fraction arithmetic is exact"]
-REQUIRE = ["evaluations", "site:poly.fast_polynomial", "site:fpa.fast_polynomial", "site:fpa.horner", "site:fpa.compensated_horner", "site:fpa.laurent", "site:rpolynomial",
+REQUIRE = ["evaluations", "site:poly.fast_polynomial", "site:fpa.fast_polynomial", "site:fpa.horner", "site:fpa.compensated_horner", "site:fpa.laurent", "site:rpolynomial", "site:rpolynomial-zero-ratio",
            "site:divmod", "site:taylorat", "site:derivative", "site:multiply", "site:add", "site:big-degree"]
 
 
@@ -206,6 +206,40 @@ def check_poly(rnd, rec, P, fpa, deg, mode, big=False):
                     rec.violation(f"{modname}.rpolynomial-value", wit(reverse=rev, coeffs=cs if deg < 12 else None, x=x, got=got, want=want))
             if deg >= 1:
                 rec.cls("rpolynomial", rev, deg)
+    # ratio lists with zero ratios: coeffs[i] = rcoeffs[i] * coeffs[i-1], so a zero ratio makes that coefficient and all higher ones vanish - a polynomial like
+    # any other (asrpolynomial itself produces a final zero ratio for a vanishing leading coefficient)
+    from functional_algorithms import utils as fa_utils2_
+
+    for _ in range(2):
+        nrc = rnd.randint(2, 9)
+        rc0 = [F(rnd.choice([-1, 1]) * rnd.randint(1, 9), rnd.randint(1, 6)) for _ in range(nrc)]
+        for j_ in rnd.sample(range(1, nrc), rnd.randint(1, min(2, nrc - 1))):
+            rc0[j_] = F(0)
+        implied = [rc0[0]]
+        for i in range(1, nrc):
+            implied.append(rc0[i] * implied[i - 1])
+        for rev in (False, True):
+            rcl = rc0[::-1] if rev else list(rc0)
+            want = direct(implied, x)
+            rec.count("evaluations")
+            rec.count("site:rpolynomial-zero-ratio")
+            for modname, call in (("poly", lambda: P.rpolynomial(x, list(rcl), reverse=rev)), ("fpa", lambda: fpa.rpolynomial(QCtx(), x, list(rcl), reverse=rev))):
+                try:
+                    got = call()
+                except Exception as e:
+                    rec.violation(f"{modname}.rpolynomial-exception", wit(reverse=rev, context=modname, rcoeffs=rcl, x=x, exc=f"{type(e).__name__}: {e}"[:200]))
+                    continue
+                if got != want:
+                    rec.violation(f"{modname}.rpolynomial-value", wit(reverse=rev, rcoeffs=rcl, implied_coeffs=implied, x=x, got=got, want=want))
+            rec.cls("rpolynomial-zero-ratio", rev, nrc, rc0.index(F(0)))
+    if len(cs) >= 2 and cs[-1] == 0 and all(c != 0 for c in cs[:-1]):
+        # a vanishing leading coefficient through the package's own conversion
+        rc = P.asrpolynomial(list(cs), reverse=False)
+        want = direct(cs, x)
+        got = P.rpolynomial(x, rc)
+        rec.count("site:rpolynomial-zero-ratio")
+        if got != want:
+            rec.violation("poly.rpolynomial-value", wit(reverse=False, coeffs=cs, rcoeffs=rc, x=x, got=got, want=want))
     # algebra
     deg2 = rnd.randint(0, 8)
     Qc = rand_coeffs(rnd, deg2, rnd.choice(["dense", "sparse", "lead0", "trail0"]))
